@@ -912,8 +912,17 @@ pub struct FuzzHost {
     strict: bool,
 }
 
+/// True inside a coverage-guided fuzz target (set by [`FuzzHost::new`]): generators with an expensive
+/// one-time construction (tables built by search) leave that class out there — under ASan and debug
+/// assertions the construction alone would be reported by libFuzzer as a slow unit / out of memory.
+pub fn in_fuzz_host() -> bool {
+    IN_FUZZ_HOST.load(std::sync::atomic::Ordering::Relaxed)
+}
+static IN_FUZZ_HOST: std::sync::atomic::AtomicBool = std::sync::atomic::AtomicBool::new(false);
+
 impl FuzzHost {
     pub fn new(spec: PropSpec) -> Self {
+        IN_FUZZ_HOST.store(true, std::sync::atomic::Ordering::Relaxed);
         // libfuzzer-sys installs an aborting panic hook; expected panics are data for us
         install_quiet_panic_hook();
         let ctx = Ctx { tier: Tier::Quick, seed: 0, scale: 1.0 };
